@@ -230,17 +230,17 @@ CLAIMS["C04"] = (
 ADDED = {
     "C11": "Also: condition_parser::parse read end to end on 4406 #if conditions against an independently written evaluator of the same C grammar. An #if left open by an included file survives in the including file's chain or is refused. `defined` read through apply_macros with apply_defined on and off (operator only in #if / #elif); the per-site dominance rules are the fallback of the directive table; the set of #pragma once files is real in the model. The eight C operator spellings are cut into tokens with the lexer's table and read by condition_parser::parse itself (five operand pairs identify the operator); the level-chain rules are the fallback of the condition table. preprocess_initial_file walked with an entry file that leaves a given chain behind: only the empty chain is accepted.",
     "C09": "Also: format_literal composed with the lexer's token function, both read by the finite-map reader: a literal of every kind, printed for every target, lexes back to one token of the same kind and value; printer wrappers (format_expression) are recursion events of the parenthesis rules. Context rule: for the eight places where an expression is printed outside an expression (initialiser, default argument, attribute argument, array size, template argument, enum value, statement, for-init) the operators switched off by the parser's terminator there are parenthesised by the printer at that site; print helpers that choose the side from the child are read per child kind. Statement rule: format_statement composed with parse_statement on 49 model statement trees (every kind, every shape of a for header, labels, nested conditionals) is the identity. Declaration rule: print o parse is the identity on function parameters, variable definitions, globals, enums, structs, constant buffers and function definitions (opaque types / declarators / expressions). Operator spellings: the operator parsers of each level evaluated on the lexed spelling of every operator (the arm-by-arm simulation is the fallback). Declarators: format_declarator / parse_declarator walked for real on the declarator trees the parser can produce (pointer qualifiers, references, arrays), alone and next to a second declarator. Operator spellings are read by evaluating format_unary_op / format_bin_op per operator. Statements with attributes in every position a statement can stand in print and read back unchanged. Semantics: parse_semantic(format_semantic_annotation(s)) = s on 27 spellings.",
-    "C01": "Also: the C09 parenthesis / operand-side / adjacency rules and the C15 name-uniqueness and qualified-reference rules re-evaluated for the HLSL path; crate-level inventory of skipping / reordering sequence operations; index ranges start at 0. Exporter tables: HLSL generate_expression composed with the typer's parse_expr_unchecked on the typed-expression model (export then re-elaborate gives the same node and type); generate_variable_definition / generate_global_variable / generate_function_param composed with the typer's parse_localtype / parse_globaltype / parse_input_modifier / parse_interpolation_modifier (storage class, precise, const, in/out, interpolation survive); the exporter's verdict is the same for the plain and the const variant of every model expression. generate_statement read as a table (same statement kind, same parts in order); an operand with an effect (`i++`) is exported exactly once wherever it stands. generate_literal on enum constants of a two-enum module names the constant's own enumerator. Literals read as tables: generate_literal on every constant kind x payloads at both ends of the range, composed with the typer's parse_literal (same kind, same number; a negative integer as minus its magnitude). Intrinsic names: when several source names map to one Intrinsic, every overload callable under some name exists under the emitted name. Local declarations with array types and initialisers keep their storage class. Swizzles: the HLSL export-and-re-elaborate table; the shape rules about single functions decide only where the table that reads the same function is not readable. generate_scope_block on scripted statement lists with stacked / trailing case and default labels: labels and statements come out in the order they went in. Every implicit conversion is also applied to an operand that is itself a cast: the result wraps the whole operand. The operator table of the constant folder (C13.op) is also an obligation of C01: folded literals are what the exporter prints. System-value semantics: parse_semantic composed with format_semantic_annotation names the same system value on 27 spellings.",
-    "C02": "Also: generate_function_and_trampoline read as a decision table (160 cases); operands repeated by a struct cast are leaves of ir::Expression; the C01 additions for the MSL path. The MSL exporter's verdict (exported / refused with reason) is the same for the plain and the const variant of every expression of the typed-expression model; `static` is printed iff the local is static. generate_statement read as a table; an operand with an effect is exported exactly once wherever it stands (struct casts included). analyse_globals read on one-global modules: mutable globals are threaded by reference in their address space; generate_literal on enum constants. Usage analysis read as a function of the module (which globals an entry point reaches through subscripts, members and calls); simplify_cbuffers on modules with 0-2 constant buffers (empty ones included); vector / matrix swizzles exported alike by both exporters; literals as for C01. generate_scope_block as for C01. generate_semantic_annotation on 27 semantic spellings: every HLSL system value gets the Metal attribute that supplies the same quantity (reference: the Metal specification's attribute tables).",
-    "C03": "Also: swizzle value-category functions over all slot sequences of length <= 4; ImplicitConversion::find's table for an Lvalue destination (no conversion across element types or dimensions). Elaboration read as tables: parse_expr_binop / parse_expr_unaryop / parse_expr_ternary, the member and subscript arms of parse_expr_unchecked, write_function, the return arm of parse_statement and parse_initializer are evaluated by the finite-map reader over a matrix of operand types (scalars, vectors, matrices, enum, struct, arrays, every object type; plain / const / volatile; lvalue / rvalue), and every accepted node is typed again by rssl's own IR typing rule (Expression::get_type + IntrinsicOp::get_return_type, asserts included): no abort, same type as reported, operands in order, arguments / returned values / initialisers of exactly the declared type, out/inout arguments mutable lvalues, parts of const values const. parse_function_body on a model function: parameter variables, scope entries and FunctionParam carry the type written on the parameter (modifiers included). parse_globaltype read over 15 storage-class spellings: the class as written (extern when none), conflicting classes refused, extern globals const, static / groupshared globals typed as written. parse_vardef over {mutable, const} x {initialiser folds, does not fold, aggregate, absent}: a local carries a constant value exactly when it is const and its initialiser folds. The access model contains const row_major / column_major matrices (a selected row stays const). read_matrix_subscript on 16 matrix shapes x 263 element-name strings: accepted exactly when every named element lies inside the matrix. Initialisers include empty and one- / two-element aggregates for every type.",
+    "C01": "Also: the C09 parenthesis / operand-side / adjacency rules and the C15 name-uniqueness and qualified-reference rules re-evaluated for the HLSL path; crate-level inventory of skipping / reordering sequence operations; index ranges start at 0. Exporter tables: HLSL generate_expression composed with the typer's parse_expr_unchecked on the typed-expression model (export then re-elaborate gives the same node and type); generate_variable_definition / generate_global_variable / generate_function_param composed with the typer's parse_localtype / parse_globaltype / parse_input_modifier / parse_interpolation_modifier (storage class, precise, const, in/out, interpolation survive); the exporter's verdict is the same for the plain and the const variant of every model expression. generate_statement read as a table (same statement kind, same parts in order); an operand with an effect (`i++`) is exported exactly once wherever it stands. generate_literal on enum constants of a two-enum module names the constant's own enumerator. Literals read as tables: generate_literal on every constant kind x payloads at both ends of the range, composed with the typer's parse_literal (same kind, same number; a negative integer as minus its magnitude). Intrinsic names: when several source names map to one Intrinsic, every overload callable under some name exists under the emitted name. Local declarations with array types and initialisers keep their storage class. Swizzles: the HLSL export-and-re-elaborate table; the shape rules about single functions decide only where the table that reads the same function is not readable. generate_scope_block on scripted statement lists with stacked / trailing case and default labels: labels and statements come out in the order they went in. Every implicit conversion is also applied to an operand that is itself a cast: the result wraps the whole operand. The operator table of the constant folder (C13.op) is also an obligation of C01: folded literals are what the exporter prints. System-value semantics: parse_semantic composed with format_semantic_annotation names the same system value on 27 spellings. parse_localtype over every ordered list of up to three local modifiers: static / precise are recognised wherever they stand. The folder's cast table (C13.cast) as for the operator table.",
+    "C02": "Also: generate_function_and_trampoline read as a decision table (160 cases); operands repeated by a struct cast are leaves of ir::Expression; the C01 additions for the MSL path. The MSL exporter's verdict (exported / refused with reason) is the same for the plain and the const variant of every expression of the typed-expression model; `static` is printed iff the local is static. generate_statement read as a table; an operand with an effect is exported exactly once wherever it stands (struct casts included). analyse_globals read on one-global modules: mutable globals are threaded by reference in their address space; generate_literal on enum constants. Usage analysis read as a function of the module (which globals an entry point reaches through subscripts, members and calls); simplify_cbuffers on modules with 0-2 constant buffers (empty ones included); vector / matrix swizzles exported alike by both exporters; literals as for C01. generate_scope_block as for C01. generate_semantic_annotation on 27 semantic spellings: every HLSL system value gets the Metal attribute that supplies the same quantity (reference: the Metal specification's attribute tables). The Metal generate_expression on L % R for nine operand kinds: % for integers, metal::fmod for floating operands.",
+    "C03": "Also: swizzle value-category functions over all slot sequences of length <= 4; ImplicitConversion::find's table for an Lvalue destination (no conversion across element types or dimensions). Elaboration read as tables: parse_expr_binop / parse_expr_unaryop / parse_expr_ternary, the member and subscript arms of parse_expr_unchecked, write_function, the return arm of parse_statement and parse_initializer are evaluated by the finite-map reader over a matrix of operand types (scalars, vectors, matrices, enum, struct, arrays, every object type; plain / const / volatile; lvalue / rvalue), and every accepted node is typed again by rssl's own IR typing rule (Expression::get_type + IntrinsicOp::get_return_type, asserts included): no abort, same type as reported, operands in order, arguments / returned values / initialisers of exactly the declared type, out/inout arguments mutable lvalues, parts of const values const. parse_function_body on a model function: parameter variables, scope entries and FunctionParam carry the type written on the parameter (modifiers included). parse_globaltype read over 15 storage-class spellings: the class as written (extern when none), conflicting classes refused, extern globals const, static / groupshared globals typed as written. parse_vardef over {mutable, const} x {initialiser folds, does not fold, aggregate, absent}: a local carries a constant value exactly when it is const and its initialiser folds. The access model contains const row_major / column_major matrices (a selected row stays const). read_matrix_subscript on 16 matrix shapes x 263 element-name strings: accepted exactly when every named element lies inside the matrix. Initialisers include empty and one- / two-element aggregates for every type. parse_localtype over ordered modifier lists (C03.locals/type).",
     "C04": "Also: NameMap uniqueness / generated-names-visible-to-locals rules under this property. Expression- and declaration-level fixpoint read as tables: every typed expression of the operand model exported by generate_expression and re-elaborated by parse_expr_unchecked gives the same node and type (about 1800 round trips); declarations likewise through parse_localtype / parse_globaltype / parse_input_modifier / parse_interpolation_modifier; the places where an expression is printed outside an expression parenthesise what the parser's terminator switches off there. Statement-level fixpoint: format_statement composed with the parser's parse_statement on model statement trees; qualified references to entities in nested namespaces name them as declared. Declaration-level fixpoint: print o parse on function parameters, variable definitions, globals, enums, structs, constant buffers and function definitions. Intrinsic overload rule and literal tables as for C01. generate_function_inner walked as prototype and as definition of one model function: same return type, return semantic, name and parameters. generate_root_definitions / generate_root_definition on a module with same-named functions in two namespaces and at the root, each declared and defined: every root declaration is emitted, in order, in its namespace. What the exporter writes as register(slot, space) the declaration parsers read back as written (the C06 declaration tables under this property).",
-    "C05": "Also: the numthreads scan of add_stage (whole attribute list, no early exit, argument order). add_stage read as a table over every ShaderStage and every position of [numthreads] in the attribute list. build_pipeline read as a table: text and description from the exporter, one stage per pipeline stage. analyse_bindings of both exporters read as a table on one-resource modules (31 kinds x 6 shapes x bindless x bound / unbound, and a constant buffer): a reflection entry exists exactly when the declaration has an api slot, carries its location, set and bindless flag; descriptor_count is the array length (None when unbounded, 1 otherwise); the descriptor kind depends on the object type only, is the same on both targets, injective, read/write kept. Usage analysis (is_used) read as a function of the module. The usage model contains a function template instantiation (template parameter list kept, body of its own). The declared type of buffer-address globals (generate_type_impl with the context the real GenerateContext::new builds) under the flags of the three HLSL configurations: a 64-bit address exactly where the metadata describes an inline constant.",
+    "C05": "Also: the numthreads scan of add_stage (whole attribute list, no early exit, argument order). add_stage read as a table over every ShaderStage and every position of [numthreads] in the attribute list. build_pipeline read as a table: text and description from the exporter, one stage per pipeline stage. analyse_bindings of both exporters read as a table on one-resource modules (31 kinds x 6 shapes x bindless x bound / unbound, and a constant buffer): a reflection entry exists exactly when the declaration has an api slot, carries its location, set and bindless flag; descriptor_count is the array length (None when unbounded, 1 otherwise); the descriptor kind depends on the object type only, is the same on both targets, injective, read/write kept. Usage analysis (is_used) read as a function of the module. The usage model contains a function template instantiation (template parameter list kept, body of its own). The declared type of buffer-address globals (generate_type_impl with the context the real GenerateContext::new builds) under the flags of the three HLSL configurations: a 64-bit address exactly where the metadata describes an inline constant. The constant folder's operator and cast tables (C13.op, C13.cast) are also obligations of C05: the reported thread-group size is the folded value of arguments the emitted text carries unevaluated. add_stage with scripted folded [numthreads] arguments at and beyond the ends of the uint range: exact values, out-of-range refused.",
     "C06": "Also: LanguageBinding.set / .index are the register annotation's own space / slot index (value-origin trace). parse_rootdefinition_globalvariable read on 216 statements of 1-3 declarators: every global gets the register binding of its own declarator, overridden only by the attributes. The function that turns registered bindings into bind_groups evaluated with groups {0, 2} in use: an entry for every index up to the highest one used (both exporters); constant buffers go through the same declarator table. Tables (arrays) of buffer addresses are resources with slots; is_buffer_address is walked, not answered by the model. parse_attributes_for_global on every order of up to three binding attributes: each attribute sets exactly what it names.",
     "C07": "Also: hash-order loops with cross-iteration state or last-writer-wins assignments, including loops over a Vec filled in hash order. Leaving a loop over a Vec that was filled in hash order (return / break / ?) is order-sensitive. Context::end_enum in both hash orders returns the same diagnostic; positional queries (first / find / position / min_by_key ...) on a Vec filled from a hash container are order-sensitive consumers. Calls into metal_invoker are gated by Target::MetalBytecode directly or through helpers only called under that test. The usage closure (GlobalUsageAnalysis::calculate) is exact in both hash orders.",
     "C08": "Also: str range-index bounds are character boundaries by construction; admitted scalar types vs handled constant kinds (contradiction rule). The typer's elaboration tables (C03) are read again for aborts: no operand combination reaches a panic, and no accepted node is one whose IR type can only be asked by aborting; parse_pipeline on 280 model property lists; walk_into_scopes on a model scope tree. Every re-entry of apply_single_macro into the expander carries the disabled set; pointer-range assertions on lexer error slices against constructors that carry a foreign slice (contradiction rule). Both location decoders of the SourceManager evaluated for every position of a three-file model (end-of-file slots and one past the end included): none aborts. Layout checker on degenerate element types (structs without data): no abort; #include nesting is bounded (the directive evaluated at depth 0 and a million files deep). `defined` produced by a macro from another file (apply_macros with apply_defined on located tokens) does not abort; an explicit enumerator of every scalar type followed by an implicit one never aborts (enum model); todo! / overflow sites inside a helper that the reference function table does not know are reported under the function that calls it. parse_pipeline on a module that already has a pipeline of the same name (refused) or of another name (accepted); add_stage for an entry point without a body (a diagnostic, not an abort). Built-in integer arithmetic in the tables has the range of its type (overflow is an abort). Initialiser elaboration includes empty aggregates; an out-of-range index or slice in a walked function is an abort.",
     "C10": "Also: the location decoders of SourceManager (C14.line rules) under 'every diagnostic position lies inside the file'. literal_int on 369 integer spellings (three radices, boundary values up to 25 digits, every suffix) and literal_float on 3969 decimal spellings (IEEE arithmetic of the reader = rustc's target) against exact / correctly rounded values; the C09 print-and-lex-back table under this property ('the value appears unchanged in the output'). TokenStream::read_to_end and unlex evaluated on thirteen model texts at two base locations: the token spans tile the text and unlex gives it back. generate_literal / parse_literal payloads read as tables (the number that comes out is the number that went in, at both ends of each range).",
     "C12": "Also: the include cache is keyed by the requested name (one file id per name, #pragma once per id). apply_macros read on 45 model token lists over ten macro sets against textual substitution written in the rule (object- and function-like macros, nested and parenthesised arguments, recursion cut-off, hand-over of a function-like name to the following text, argument-count and unterminated-list errors). Self-reference through the argument of a function-like macro (two more macro sets): the expansion terminates. `##` evaluated end to end (unlexer, source manager, lexer) on 21 token pairs against the lexing of the pasted text; FileLoader::load / mark_as_pragma_once as a state machine on a diamond of includes; eight more #define layouts. The shape rules about split_macro_args and the body substitution are the fallback of the expansion table; #define over an API-supplied macro and #undef of one; #pragma once marking evaluated on a real set. API defines: preprocess_initial_file walked on five define lists: the entry file sees one object-like macro per define, in order, its value lexed, no source location. #define over an existing macro with the same body but another kind or parameter count replaces it (macro lists compared by name).",
-    "C13": "Also: the literal folding fast path of ImplicitConversion::apply agrees with evaluate_cast. evaluate_operator is read as a function: 8 unary / 20 binary operators x 9 constant kinds x sample values (plain and enum-wrapped, about 6500 folded evaluations) against the run-time semantics written in the rule; refusing to fold is always allowed. Context::end_enum read on model enums: an accepted enum keeps every enumerator's value (no wrap into the underlying type), sets that fit int or uint are accepted. parse_rootdefinition_enum on ten enumerator lists: an implicit enumerator is the previous value plus one in the previous value's type. parse_declarator on array dimensions of every constant kind: negative, fractional and >= 2^32 values are refused, others give exactly that length. FunctionRegistry::find_instantiation on a model registry for twelve argument lists: an instantiation is reused exactly for the same constants (kind and value) and types. evaluate_constexpr on SizeOf(T) over the type model: a folded sizeof is the type's size on the targets (component size x components for vectors and matrices); refusing to fold is allowed. ensure_struct_template walked with recording stand-ins: a default template argument is evaluated inside the instantiation scope with every earlier parameter bound. add_intrinsics walked (function table emptied) on an empty module: every pre-defined constant carries HLSL's value of that name.",
+    "C13": "Also: the literal folding fast path of ImplicitConversion::apply agrees with evaluate_cast. evaluate_operator is read as a function: 8 unary / 20 binary operators x 9 constant kinds x sample values (plain and enum-wrapped, about 6500 folded evaluations) against the run-time semantics written in the rule; refusing to fold is always allowed. Context::end_enum read on model enums: an accepted enum keeps every enumerator's value (no wrap into the underlying type), sets that fit int or uint are accepted. parse_rootdefinition_enum on ten enumerator lists: an implicit enumerator is the previous value plus one in the previous value's type. parse_declarator on array dimensions of every constant kind: negative, fractional and >= 2^32 values are refused, others give exactly that length. FunctionRegistry::find_instantiation on a model registry for twelve argument lists: an instantiation is reused exactly for the same constants (kind and value) and types. evaluate_constexpr on SizeOf(T) over the type model: a folded sizeof is the type's size on the targets (component size x components for vectors and matrices); refusing to fold is allowed. ensure_struct_template walked with recording stand-ins: a default template argument is evaluated inside the instantiation scope with every earlier parameter bound. add_intrinsics walked (function table emptied) on an empty module: every pre-defined constant carries HLSL's value of that name. add_stage with scripted folded [numthreads] arguments of every integer kind at and beyond the ends of the uint range: the value as it is, or refused.",
     "C14": "Also: comment scanners start after their opener; no function outside the lexer and Token::is_whitespace singles out Whitespace or Comment; both location decoders select the file with one strict comparison. Layout inside a macro's parameter list does not change the definition (Macro::parse table). line_comment / block_comment walked on 24 byte strings (`/*/ x */`, `/**/`, splices and CR LF in line comments, unterminated comments, near misses): one comment token from opener to terminator; prepare_tokens walked on lists holding one token of every kind (exactly the trivia dropped, order and start locations kept, one Eof). Redefinition diagnostics: begin_struct / register_struct_template / begin_enum on a scope that already holds the name return the existing type's id (the position printed as 'previous definition').",
     "C15": "Also: generated global names are published to the set the local phase consults; ScopedName helpers derive from NameMap::get_name_qualified. NameMap::get_name_qualified read on a three-deep namespace model (path = namespaces outermost first, then the name). Who may read a source name: per exporter the IR entity kinds whose name is read without the NameMap are a frozen, reasoned set. The identifier an exporter writes for a reference to a function / global / struct is produced by the name map for that entity. parse_struct_internal on eight model definitions (own duplicates, redeclared inherited names, inheritance): a struct is accepted exactly when all member names it ends up with are distinct. generate_root_definitions of both exporters on a three-deep namespace model: definitions are wrapped in their namespaces outermost first.",
     "C16": "Also: opponents are skipped only for being the candidate itself; a function id enters a scope only where it is created and unconditionally. find_function_type evaluated as a whole on 819 scripted overload lists, and overload resolution end to end (write_function .. ImplicitConversion::find / get_rank, nothing scripted) on the model type registry: every set of two or three one-parameter overloads over 8 types and every pair of two-parameter overloads, in every declaration order, for 13 argument types - same verdict in every order, an exact match wins. get_struct_member_expression on a model struct in 18 declaration orders: every overload of the name is a candidate. check_existing_functions_in_scope on 867 declaration pairs over {in, out, inout} x {T, U}: a redeclaration exactly when the parameter lists are identical, otherwise another overload. Overloads that differ only in parameter direction (in / out / inout) in both declaration orders.",
